@@ -71,7 +71,7 @@ def cases(draw, tier):
     for _ in range(draw(st.sampled_from([0, 0, 0, 1, 1, 2, 3]))):
         ck = draw(st.sampled_from(['fix_first', 'fix_second', 'fix_both', 'fix_type', 'forbid', 'fix_first_type', 'invalid',
                                    'wit_first', 'wit_second', 'wit_both', 'wit_type', 'wit_both_type', 'wit_type_flip00',
-                                   'wit_forbid_unused']))
+                                   'wit_forbid_unused', 'wit_bad_order', 'wit_bad_order']))
         cons.append({'k': ck, 'a': draw(st.integers(0, 30)), 'b': draw(st.integers(0, 30)), 'c': draw(st.integers(0, 30)),
                      't': draw(st.sampled_from(FIX_TYPES))})
     case['constraints'] = cons
@@ -138,7 +138,7 @@ def resolve_case(case):
             break
         g = internal[c['a'] % len(internal)]
         if c['k'] == 'invalid':
-            calls.append(('invalid', c['a'] % 6, g, c['b'], c['c']))
+            calls.append(('invalid', [0, 1, 2, 3, 4, 5, 6, 7, 6, 7, 6, 6][c['a'] % 12], g, c['b'], c['c']))
             continue
         if c['k'].startswith('wit_'):
             # constraints read off the circuit the target was built from: the constrained instance stays satisfiable
@@ -146,6 +146,14 @@ def resolve_case(case):
                 continue
             wa, wb, wcode = witness[g - n]
             wt = TYPE_OF_CODE[wcode]
+            if c['k'] == 'wit_bad_order':
+                # a call that has to be refused (second predecessor not above the first) whose FIRST predecessor is a gate
+                # the witness does not read there: nothing of it may stick
+                others = [q for q in range(g) if q not in (wa, wb)]
+                if others:
+                    p1 = others[c['b'] % len(others)]
+                    calls.append(('invalid', 8, g, p1, p1 if c['c'] % 2 else c['c'] % (p1 + 1)))
+                continue
             if c['k'] == 'wit_first':
                 calls.append(('fix', g, wa, None, None))
             elif c['k'] == 'wit_second':
@@ -324,6 +332,15 @@ def check_synthesis(case):
                 elif which == 4:
                     finder.forbid_wire(g, g)
                     exp = 'ForbidWireOrderError'
+                elif which == 8:
+                    finder.fix_gate(g, first_predecessor=b, second_predecessor=c)
+                    exp = 'FixGateOrderError'
+                elif which in (6, 7):
+                    # both predecessors given, the second one not above the first (the first one alone would be fine)
+                    p1 = b % g if g > 0 else 0
+                    p2 = p1 if which == 7 else (c % (p1 + 1))
+                    finder.fix_gate(g, first_predecessor=p1, second_predecessor=p2)
+                    exp = 'FixGateOrderError'
                 else:
                     finder.forbid_wire(0, n + G + 1)
                     exp = 'GateIsAbsentError'
